@@ -775,34 +775,39 @@ example : (optimizeSeq ⟨1, fun _ => false⟩ (some 2) none
     [{ script := { out := .ret (.scalar (.ok (.fin 1))) }, cbs := [{}, {}] },
      { script := { out := .exc (.user 1) }, cbs := [{}, {}] }] 0 0 false).cbLog = [(0, 0), (0, 1)] := by decide
 
-/-- **optimizeSeq_all_terminal_partial** (`_partial`: the full-strength statement — no hypothesis — is
-FALSE on today's tree, see `ask_raise_leaves_running` (known finding "sampler-raises-in-ask"); what is
-missing is exactly the case "`study.ask()` inside `_run_trial` raises") — when the loop returns or
-raises, every trial it started is COMPLETE, PRUNED or FAIL (none RUNNING), provided no `ask` raised. -/
-theorem optimizeSeq_all_terminal_partial (cfg : Cfg) (nT to : Option Nat) (plans : List TrialPlan) (i el : Nat)
-    (stop : Bool) (hask : ∀ p ∈ plans, p.askRaises = none) :
+/-- **optimizeSeq_all_terminal** (full strength) — when the loop returns or raises, every trial it
+started is COMPLETE, PRUNED or FAIL (none RUNNING), whatever the objective, the callbacks and the
+sampler do — including a sampler (or fixed distribution) that raises inside `study.ask()`: `ask` fails
+the trial it has just created before re-raising (repaired defect F21; before the repair this needed the
+hypothesis `askRaises = none`). -/
+theorem optimizeSeq_all_terminal (cfg : Cfg) (nT to : Option Nat) (plans : List TrialPlan) (i el : Nat)
+    (stop : Bool) :
     ∀ ro ∈ (optimizeSeq cfg nT to plans i el stop).trials, ro.final.state.isFinished = true := by
   obtain ⟨h1, _⟩ := optimizeSeq_shape cfg nT to plans i el stop
   intro ro hro
   rw [h1] at hro
   obtain ⟨p, hp, rfl⟩ := List.mem_map.1 hro
   unfold runPlan
-  rw [hask p (List.mem_of_mem_take hp)]
-  exact runTrial_terminal cfg p.script
+  cases h : p.askRaises with
+  | some c => rfl
+  | none => exact runTrial_terminal cfg p.script
 
 example : ∀ ro ∈ (optimizeSeq ⟨1, fun _ => false⟩ (some 3) none
     [{ script := { out := .ret (.scalar (.ok .nan)) } }, { script := { out := .pruned } },
      { script := { out := .exc .kbd } }, {}] 0 0 false).trials, ro.final.state.isFinished = true := by decide
 
-/-- On today's tree the `askRaises = none` hypothesis is needed: `_run_trial` calls `study.ask()`
-outside every `try`, so a sampler that raises in `before_trial` / `infer_relative_search_space` leaves
-the freshly created trial RUNNING while the exception leaves `optimize`.  Replayed on the real code by
-the harness (finding `sampler-raises-in-ask`). -/
-theorem ask_raise_leaves_running :
-    ∃ p : TrialPlan, (optimizeSeq ⟨1, fun _ => false⟩ (some 1) none [p] 0 0 false).trials.map (·.final.state)
-        = [.running] ∧
-      (optimizeSeq ⟨1, fun _ => false⟩ (some 1) none [p] 0 0 false).raised = some (.user 2) :=
-  ⟨{ askRaises := some 2 }, by decide⟩
+/-- A sampler that raises in `before_trial` / `infer_relative_search_space` inside `study.ask()`:
+the freshly created trial is FAIL (no values) and the exception leaves `optimize`. -/
+theorem ask_raise_fails_trial (cfg : Cfg) (nT to : Option Nat) (c : Nat) (ps : List TrialPlan) (i el : Nat)
+    (hgo : loopBreaks nT to i el false = false) :
+    (optimizeSeq cfg nT to ({ askRaises := some c } :: ps) i el false).trials.map (·.final)
+        = [{ state := .fail }] ∧
+      (optimizeSeq cfg nT to ({ askRaises := some c } :: ps) i el false).raised = some (.user c) := by
+  unfold optimizeSeq
+  simp [hgo, runPlan]
+
+example : (optimizeSeq ⟨1, fun _ => false⟩ (some 1) none [{ askRaises := some 2 }] 0 0 false).trials.map
+    (·.final.state) = [.fail] := by decide
 
 /-- The loop stops at the first exception: only the last started trial can have raised. -/
 theorem optimizeSeq_raise_is_last (cfg : Cfg) (nT to : Option Nat) (plans : List TrialPlan) (i el : Nat)
@@ -1040,6 +1045,17 @@ theorem gen_seqLoopShape : TellGen.seqLoopShape =
      "timeout:elapsed_seconds >= timeout",
      "try[frozen_trial = _run_trial(study, func, catch)]except[0]finally[gc]",
      "callbacks:for callback in callbacks: callback(study, frozen_trial)", "progress"] := by
+  rfl
+
+/-- `Study.ask` as `runPlan` hard-wires it: once the trial exists (popped from the queue or created),
+everything that can raise — `Trial(...)` (sampler.before_trial, relative search space and sample) and the
+fixed suggests — runs inside a `try` whose handler for `(Exception, KeyboardInterrupt)` sets the trial to
+FAIL and re-raises (repaired defect F21). -/
+theorem gen_askShape : TellGen.askShape =
+    ["pop", "create:trial_id = self._storage.create_new_trial(self._study_id)",
+     "try[trial = optuna.Trial(self, trial_id);for name, param in fixed_distributions.items(): trial._suggest(name, param)]else=0,finally=0",
+     "except:(Exception, KeyboardInterrupt):try[self._storage.set_trial_state_values(trial_id, TrialState.FAIL)]except[Exception:pass];raise",
+     "return:trial"] := by
   rfl
 
 /-- The thread-pool branch of `_optimize` as `Pool.step` hard-wires it: break tests, wait for the
